@@ -154,7 +154,7 @@ func pickWeighted(t *rapid.T, w map[string]int, order []string) string {
 	return order[0]
 }
 
-var kindOrder = []string{"put", "del", "get", "batch", "sync", "merge", "reopen", "listkeys", "fold", "stat", "emptykey", "iter", "backup", "bigput", "tear", "wipe"}
+var kindOrder = []string{"put", "del", "get", "batch", "sync", "merge", "reopen", "listkeys", "fold", "stat", "emptykey", "iter", "backup", "bigput", "tear", "wipe", "kill"}
 
 // GenOp draws the next concrete op of a history from the runner's state.
 func GenOp(t *rapid.T, r *Runner, pool *KeyPool, p *GenProfile) Op {
@@ -202,11 +202,15 @@ func GenOp(t *rapid.T, r *Runner, pool *KeyPool, p *GenProfile) Op {
 		return Op{K: "get", Key: pool.Draw(t, "key")}
 	case "batch":
 		return GenBatch(t, r, pool, p)
-	case "reopen":
-		op := Op{K: "reopen"}
+	case "reopen", "kill":
+		op := Op{K: kind}
 		if !p.ReopenSame {
 			o := GenOpt(t, "reopen", p.OptProfile)
 			op.Opt = &o
+		}
+		if kind == "kill" && Pct(t, 50, "syncafterkill") {
+			// the application hardens what was recovered before it does anything else
+			r.Queued = append(r.Queued, Op{K: "sync"})
 		}
 		return op
 	case "fold":
